@@ -7,6 +7,7 @@
           | (decll (x* ) e) | (asgl (x* ) e) | (if c t) | (if c t f) | (while c b) | (for (CL* ) FB)
           | (break N) | (break N e) | (cont N) | (ret) | (ret e) | (try b x h) | (throw e)
           | (and a b) | (or a b) | (coal a b) | (lam (P* ) b) | (call f A* ) | (prim OP e* ) | (eval e)
+          | (tryp b CP h)            CP ::= (name x) | (int Z) | (str "s") | (wild) | (wild int|str|list) | (names x* )
           | (switch e ARM+)          ARM ::= ((lit Z) e) | ((bind x) e) | ((wild) e)
      A  ::= e | (splat e)            T ::= 0 | 1 (trailing semicolon)
      CL ::= (it x e) | (item i x e) | (let x e) | (guard e)
@@ -83,6 +84,7 @@ let rec expr_of (x : sx) : expr =
   | L [A "ret"] -> EReturn None
   | L [A "ret"; e] -> EReturn (Some (expr_of e))
   | L [A "try"; b; A v; h] -> ETry (expr_of b, cs v, expr_of h)
+  | L [A "tryp"; b; p; h] -> ETryP (expr_of b, cpat_of p, expr_of h)
   | L [A "throw"; e] -> EThrow (expr_of e)
   | L [A "and"; a; b] -> EAnd (expr_of a, expr_of b)
   | L [A "or"; a; b] -> EOr (expr_of a, expr_of b)
@@ -93,6 +95,16 @@ let rec expr_of (x : sx) : expr =
   | L [A "eval"; e] -> EEval (expr_of e)
   | L (A "switch" :: sc :: arms) -> ESwitch (expr_of sc, List.map arm_of arms)
   | _ -> failwith "bad expr"
+and cpat_of = function
+  | L [A "name"; A v] -> CName (cs v)
+  | L [A "int"; A z] -> CInt (coqz_of_string z)
+  | L [A "str"; Q s] -> CStr (cs s)
+  | L [A "wild"] -> CWild None
+  | L [A "wild"; A "int"] -> CWild (Some TInt)
+  | L [A "wild"; A "str"] -> CWild (Some TStr)
+  | L [A "wild"; A "list"] -> CWild (Some TList)
+  | L (A "names" :: vs) -> CList (List.map atom vs)
+  | _ -> failwith "bad catch pattern"
 and arm_of = function
   | L [L [A "lit"; A z]; e] -> (PLit (coqz_of_string z), expr_of e)
   | L [L [A "bind"; A v]; e] -> (PBind (cs v), expr_of e)
